@@ -69,7 +69,7 @@ def plan(tier):
 
 def floors(tier):
     if tier == "thorough":
-        return {"tensors_checked": 100000, "charge_postconditions": 20000, "nonzero_charge_tensors": 10000, "suite_files_run": 100}
+        return {"tensors_checked": 100000, "charge_postconditions": 20000, "nonzero_charge_tensors": 10000, "suite_files_run": 80}
     return {"tensors_checked": 5000, "charge_postconditions": 1500, "nonzero_charge_tensors": 800}
 
 
